@@ -159,8 +159,8 @@ def check_specs(ctx, pairs):
     """graph.inputs of the nested graph == of the flat graph == InputSpec.tla of either."""
     sjobs = []
     for j, tag in pairs:
-        sjobs.append({"id": 2 * j["id"], "prog": j["prog"], "select": IR.UNSET, "given": []})
-        sjobs.append({"id": 2 * j["id"] + 1, "prog": j["flat"], "select": IR.UNSET, "given": []})
+        sjobs.append({"id": 2 * j["id"], "prog": j["prog"], "select": IR.UNSET, "given": [], "entrypoint": IR.NONE})
+        sjobs.append({"id": 2 * j["id"] + 1, "prog": j["flat"], "select": IR.UNSET, "given": [], "entrypoint": IR.NONE})
     res, stats = specs.spec_eval(sjobs)
     ctx.add_tlc(stats)
     for j, tag in pairs:
